@@ -1,6 +1,9 @@
 import KmipModel.ExpectSkel
 import KmipModel.Wire
 import KmipGen.Schema
+import KmipProofs.WireGen
+import KmipProps.C01
+import KmipProps.C07
 import KmipGen.Skeleton
 /-
   C07, generated obligations: the ordered operation skeletons of `Server.serve` and `Server.handleBatch`,
@@ -43,5 +46,43 @@ theorem GenC07_wire_shapes :
     KmipGen.sd_RequestBatchItem.fields.map Fld.name = ["Operation", "UniqueID", "RequestPayload", "MessageExtension"] ∧
     KmipGen.sd_Authentication.fields.map Fld.name = ["CredentialType", "CredentialValue"] ∧
     KmipGen.sd_ProtocolVersion.fields.map Fld.name = ["Major", "Minor"] := by decide
+
+
+/-! ### the response through the bytes: what a Client decodes from what the Server encoded, for a batch of any size -/
+set_option linter.unusedSimpArgs false
+open Kmip.Wire
+
+/-- **C07 through the bytes.**  For ANY decoded Request value and any handlers: if handleBatch answers (`resp`), then whatever
+    bytes Encode writes for that Response, a Client's Decode of them yields a value in which it reads the request's batch
+    count and, item by item in the request's order, the request item's operation with the outcome of the handler invoked for
+    that item (payloads up to Decode's normalisation, reasons and messages verbatim). -/
+theorem GenC07_wire_echo_over_the_wire (clock : Nat) (authOk : Bool) (H : Nat → ItemIn → HRes) (req resp : Val) (sb : Bytes) (fin : Fin)
+    (h : handleBatch wireZNonce wireZExt clock authOk H req = some resp)
+    (hw : WFv (.struct KmipGen.sd_Response) resp) (hs : (canonTop KmipGen.sd_Response resp).Small = true)
+    (he : encodeSD KmipGen.sd_Response resp = .ok sb) :
+    ∃ rq cv d', reqView req = some rq ∧ rq.batchCount = rq.items.length ∧
+      decodeSD KmipGen.sd_Response sb fin = .ok (cv, sb.length, d') ∧
+      Client.respView cv = some { batchCount := rq.batchCount, items := viewsOfN H 0 rq.items } := by
+  obtain ⟨rq, hv, hr, hbc, _, _, _⟩ := C07_wire_echo wireZNonce wireZExt clock authOk H req resp h
+  obtain ⟨_, _, _, hd2, hok2, ht2⟩ := wire_schemas_ok
+  obtain ⟨d', hdec⟩ := C01_roundtrip KmipGen.sd_Response resp sb fin hd2 hok2 ht2 hw hs he
+  refine ⟨rq, _, d', hv, hbc, hdec, ?_⟩
+  rw [hr]
+  exact respView_norm_respVal_all clock H rq
+
+/-- the k-th item a Client decodes answers the k-th item of the request -/
+theorem GenC07_wire_item_over_the_wire (H : Nat → ItemIn → HRes) : ∀ (i : Nat) (its : List ItemIn) (k : Nat) (it : ItemIn),
+    its[k]? = some it → (viewsOfN H i its)[k]? = some (viewOfN it (H (i + k) it))
+  | _, [], k, it, h => by simp at h
+  | i, x :: rest, 0, it, h => by
+    simp only [List.getElem?_cons_zero, Option.some.injEq] at h
+    subst h
+    simp [viewsOfN]
+  | i, x :: rest, k + 1, it, h => by
+    simp only [List.getElem?_cons_succ] at h
+    have := GenC07_wire_item_over_the_wire H (i + 1) rest k it h
+    simp only [viewsOfN, List.getElem?_cons_succ, this]
+    congr 3
+    omega
 
 end Kmip
